@@ -14,7 +14,7 @@ import (
 // VGMapOf builds a TreeBidiMap by the library's own Puts from the constructor (two coupled trees cannot be
 // summarised independently): every insertion order of the pairs is a solver choice because the keys are symbolic.
 func VGMapOf(keys, vals []int) *Map[int, int] {
-	m := NewWith[int, int](cmp.Compare[int], vValCmp())
+	m := NewWith[int, int](vl.Cmp, vValCmp())
 	for i := range keys {
 		m.forwardMap.Put(keys[i], vals[i])
 		m.inverseMap.Put(vals[i], keys[i])
@@ -33,7 +33,7 @@ func vValCmp() func(a, b int) int {
 func vValOrder() int { return 1 + v.CfgOr("cmpv", 0) }
 
 func VInv(m *Map[int, int]) {
-	vl.WithOrder(1, func() { rbt.VInv(&m.forwardMap) })
+	rbt.VInv(&m.forwardMap) // keys: the configured comparator ("cmp")
 	vl.WithOrder(vValOrder(), func() { rbt.VInv(&m.inverseMap) })
 	v.Assert(m.forwardMap.Size() == m.inverseMap.Size(), "C10:inv-sizes")
 	for _, k := range m.forwardMap.Keys() {
@@ -114,7 +114,7 @@ func vJSON(c *Map[int, int]) containers.VJSON {
 		Unmarshal: func(data []byte) error { return json.Unmarshal(data, c) },
 		Inv:     func() { VInv(c) },
 		Step:    func() { k, x := v.Int("sk"), v.Int("sx"); c.Put(k, x); y, ok := c.Get(k); v.Assert(v.And(ok, y == x), "C12:put-after-load") },
-		Fresh:   func() containers.VJSON { return vJSON(NewWith[int, int](cmp.Compare[int], vValCmp())) },
+		Fresh:   func() containers.VJSON { return vJSON(NewWith[int, int](vl.Cmp, vValCmp())) },
 		Object: true, Bidi: true, Keys: c.Keys, Get: c.Get, Ref: func(ks, xs []int) ([]int, []int) { return vl.SortPairs(vl.LastPerKey(ks, xs)) },
 	}
 }
@@ -135,6 +135,6 @@ func VHJSONLoad() {
 
 // VHHistory: D operations in a row from the constructor (see VMapHistory).
 func VHHistory() {
-	m := NewWith[int, int](cmp.Compare[int], vValCmp())
+	m := NewWith[int, int](vl.Cmp, vValCmp())
 	maps.VMapHistory(m, maps.VKind{Name: "TreeBidiMap", Bidi: true, Sorted: true, ValDesc: v.CfgOr("cmpv", 0) == 1, GetKey: m.GetKey, Inv: func() { VInv(m) }})
 }
